@@ -1418,7 +1418,8 @@ fn gen_protein_case(rng: &mut Rng, id: usize, tier: &str) -> String {
 /// a wide DNA motif (100 .. 2000 rows) on a sequence only a few positions longer: the generic path
 /// and the saturation of long sums, cheap to replay
 fn gen_wide_case(rng: &mut Rng, id: usize, tier: &str) -> String {
-    let maxw = if tier == "thorough" { 2000 } else { 700 };
+    // the list-based model is quadratic in the motif width: about 20 s of driver time per case at M = 2000, 0.6 s at 700
+    let maxw = if tier == "thorough" { 1400 } else { 700 };
     let m = (100 + rng.below(maxw - 99)) as usize;
     let flat = rng.chance(1, 3);
     let mut rows: Vec<[f32; 5]> = vec![];
@@ -1450,8 +1451,13 @@ fn gen_wide_case(rng: &mut Rng, id: usize, tier: &str) -> String {
 fn gen_case(rng: &mut Rng, id: usize, tier: &str) -> String {
     match rng.below(100) {
         0..=11 => return gen_protein_case(rng, id, tier),
-        // wide motifs: 3% of the quick tier (M <= 700), 1% of the thorough tier (M <= 2000)
-        12 => return gen_wide_case(rng, id, tier),
+        // wide motifs: 3% of the quick tier (M <= 700), 0.5% of the thorough tier (M <= 1400)
+        12 if tier != "thorough" => return gen_wide_case(rng, id, tier),
+        12 => {
+            if rng.chance(1, 2) {
+                return gen_wide_case(rng, id, tier);
+            }
+        }
         13..=14 if tier != "thorough" => return gen_wide_case(rng, id, tier),
         _ => {}
     }
